@@ -293,6 +293,7 @@ func TestVerifC05(t *testing.T) {
 	sort.Strings(bnames)
 	idx := 0
 	use := []string{k1, k3, "fresh"} // existing, colliding-new, non-colliding-new
+	var baseNames map[string]bool // the counters really stored in the undamaged base file
 	checkRest := func(desc string, data []byte) {
 		idx++
 		if !p.Mine(idx) {
@@ -329,8 +330,12 @@ func TestVerifC05(t *testing.T) {
 				for v := range afterSets[n] {
 					if !vs[v] {
 						class = "other-changed"
-						res.Violate("other-counter-changed", fmt.Sprintf("value of untouched counter %q changed (now %d) after using a damaged file: %s", zzvShort(n), v, desc), map[string]any{"case": desc})
+						res.Violate("other-counter-changed:"+zzvDamagedField(desc), fmt.Sprintf("value of untouched counter %q changed (now %d) after using a damaged file: %s", zzvShort(n), v, desc), map[string]any{"case": desc})
 					}
+				}
+				if len(afterSets[n]) == 0 && len(vs) > 0 && baseNames[n] && len(after) < 1<<20 {
+					class = "other-lost"
+					res.Violate("other-counter-lost:"+zzvDamagedField(desc), fmt.Sprintf("untouched counter %q, readable in the damaged file at rest, is gone after the process used the file: %s", zzvShort(n), desc), map[string]any{"case": desc})
 				}
 			}
 			tot := uint64(0)
@@ -353,8 +358,10 @@ func TestVerifC05(t *testing.T) {
 		names := bases[bn]
 		w := ref.NewCFWriter(zzvC10Meta())
 		var offs []uint32
+		baseNames = map[string]bool{}
 		for i, n := range names {
 			offs = append(offs, w.Add(n, uint64(10+i)))
+			baseNames[n] = true
 		}
 		checkRest("R:"+bn+" undamaged", w.Bytes())
 		fields := zzvFields(w, offs, names)
@@ -390,6 +397,7 @@ func TestVerifC05(t *testing.T) {
 		}
 	}
 	// Files of odd sizes / wrong prefix / wrong metadata.
+	baseNames = map[string]bool{k1: true}
 	good := ref.NewCFWriter(zzvC10Meta())
 	good.Add(k1, 3)
 	for _, sz := range []int{0, 1, 16383, 16384, 16385, 32768} {
@@ -506,4 +514,26 @@ func zzvOpenFDs() int {
 		return 0
 	}
 	return len(ents)
+}
+
+// zzvDamagedField names the damaged fields of a case ("R2:two-collide limit=0x.. rec0.next=0x..").
+func zzvDamagedField(desc string) string {
+	var fields []string
+	for _, tok := range strings.Fields(desc) {
+		if i := strings.Index(tok, "="); i > 0 {
+			f := tok[:i]
+			if j := strings.Index(f, "["); j >= 0 {
+				f = f[:j]
+			}
+			f = strings.TrimRight(f, "0123456789") // rec0.next -> rec0.next stays; rec0 -> rec
+			fields = append(fields, f)
+		}
+	}
+	sort.Strings(fields)
+	for _, f := range fields {
+		if f == "limit" {
+			return "limit-damaged" // whatever else is damaged too: the allocation limit cannot be trusted
+		}
+	}
+	return strings.Join(fields, "+")
 }
